@@ -1,3 +1,165 @@
-(* Properties_C02d.v -- placeholder while the proofs are built *)
-From Coq Require Import ZArith List Bool.
-From CgnsV Require Import AdfAlloc.
+(* Properties_C02d.v -- exported theorems about the ADF on-disk free-space manager (AdfAlloc.v: ADFI_file_malloc as
+   compiled = growth at end_of_file + block rule; ADFI_file_free = class decision, push at the head of a list or 'z'
+   fill; nothing is ever taken off a free list -- the search in ADFI_file_malloc is inside "#if 0").  They complement
+   Properties_C02.v (ideal tree), Properties_C02b.v (buffers, stack, sub-node tables), Properties_C02c.v (data chunks).
+   Only statements closed by [exact]; Print Assumptions under each; Examples for non-vacuity.
+
+   Vocabulary (AdfAllocProofs.v): a region is (start, bytes); [regions s] = live allocations ++ entries of the three
+   free lists ++ abandoned 'z' ranges ++ tails lost behind short frees; [rdisj a b] = the two regions share no byte;
+   [pairwise l] = the regions of l are pairwise [rdisj]; [in_file e r] = r is non-empty and lies in [HDR, e + 1).
+   [ok_hist s h]: every malloc asks for > 0 bytes and every free hands back a live allocation FROM ITS FIRST BYTE, at most
+   as many bytes as were allocated; [exact_hist]: exactly as many.  Both are boolean monitors that the correspondence
+   run evaluates at every real call. *)
+From Coq Require Import ZArith List Bool Permutation.
+From CgnsV Require Import AdfAlloc AdfAllocProofs.
+Import ListNotations.
+Local Open Scope Z_scope.
+
+(* (a) NO OVERLAP, for every history: everything the allocator knows of -- live allocations, free-list entries, dead
+   and lost ranges -- is pairwise disjoint and lies between the fixed part of the file and end_of_file; in
+   particular live allocations are pairwise disjoint and disjoint from every free-list entry. *)
+Theorem C02_alloc_no_overlap : forall h, ok_hist init_st h = true ->
+  let s := run init_st h in
+  pairwise (regions s) /\
+  Forall (in_file (eof s)) (regions s) /\
+  pairwise (live s) /\
+  (forall a b, In a (live s) -> In b (free_regions s ++ dead s ++ lost s) -> rdisj a b) /\
+  (forall a, In a (live s) -> HDR <= fst a /\ fst a + snd a <= eof s + 1).
+Proof. exact alloc_no_overlap. Qed.
+Print Assumptions C02_alloc_no_overlap.
+
+(* the invariant behind (a)-(c) is kept from ANY state that has it (e.g. a file written in an earlier session) *)
+Theorem C02_alloc_invariant_preserved : forall s h, Inv s -> ok_hist s h = true -> Inv (run s h).
+Proof. exact alloc_invariant_preserved. Qed.
+Print Assumptions C02_alloc_invariant_preserved.
+
+(* (b) FREE LISTS WELL FORMED, for every history.  small: the end TAG starts in the block the chunk starts in and
+   246 < bytes <= 1024; medium: same block, 1024 < bytes <= 4099 (not 4096: see the _refuted below); large: the end tag
+   starts in a later block, bytes > 246; every last_block pointer is the start of the last entry in link order (blank
+   iff the list is empty); entries are pairwise disjoint and inside the file. *)
+Theorem C02_alloc_free_lists_well_formed : forall h, ok_hist init_st h = true ->
+  let s := run init_st h in
+  fl_wf small_ok (small s) /\ fl_wf medium_ok (medium s) /\ fl_wf large_ok (large s) /\
+  pairwise (free_regions s) /\
+  Forall (in_file (eof s)) (free_regions s).
+Proof. exact alloc_free_lists_well_formed. Qed.
+Print Assumptions C02_alloc_free_lists_well_formed.
+
+(* (d) MALLOC IS TOTAL on every state with the invariant (any size > 0): the chunk has the bytes asked for, lies
+   entirely beyond the old end_of_file (so it is disjoint from everything allocated, freed or abandoned before: freed
+   space is never handed out again), end_of_file becomes its last byte, and the BLOCK RULE holds: a chunk of at most
+   4096 bytes never straddles a block boundary; it starts right behind the old end of file unless that would make it
+   straddle, in which case it starts the next block. *)
+Theorem C02_alloc_malloc_total : forall s n, Inv s -> 0 < n ->
+  let s' := fst (malloc s n) in let p := snd (malloc s n) in
+  Inv s' /\ In (p, n) (live s') /\ eof s < p /\ eof s' = p + n - 1 /\
+  Forall (rdisj (p, n)) (regions s) /\
+  (n <= BLK -> blk p = blk (p + n - 1)) /\
+  (p = eof s + 1 \/ off (eof s) <> BLK - 1 /\ p = (blk (eof s) + 1) * BLK /\ n <= BLK /\ BLK <= off (eof s) + n).
+Proof. exact alloc_malloc_total. Qed.
+Print Assumptions C02_alloc_malloc_total.
+
+(* (c) CONSERVATION, for every history: live + free-list + dead + lost bytes = end_of_file + 1 - 512 ... *)
+Theorem C02_alloc_conservation : forall h, ok_hist init_st h = true ->
+  let s := run init_st h in
+  total (live s) + total (free_regions s) + total (dead s) + total (lost s) = eof s + 1 - HDR.
+Proof. exact alloc_conservation. Qed.
+Print Assumptions C02_alloc_conservation.
+
+(* ... and when every free is exact nothing is lost (live + free-list + dead = end_of_file + 1 - 512) and the large
+   list holds only chunks of more than a block. *)
+Theorem C02_alloc_exact_histories : forall h, exact_hist init_st h = true ->
+  let s := run init_st h in
+  lost s = [] /\
+  total (live s) + total (free_regions s) + total (dead s) = eof s + 1 - HDR /\
+  Forall large_strong (fl_chunks (large s)).
+Proof. exact alloc_exact_histories. Qed.
+Print Assumptions C02_alloc_exact_histories.
+
+(* FREE SPACE IS EXACTLY ACCOUNTED (push-only lists), for every history and every start state, no hypothesis: the
+   entries of the three lists together with the 'z' ranges are, as a multiset, exactly the ranges handed to
+   ADFI_file_free -- by callers and by ADFI_file_malloc itself (rest of a block) -- plus what was there before ... *)
+Theorem C02_alloc_free_space_accounted : forall h s,
+  Permutation (free_space (run s h)) (rev (handed_back s h) ++ free_space s).
+Proof. exact alloc_free_space_accounted. Qed.
+Print Assumptions C02_alloc_free_space_accounted.
+
+(* ... no list ever loses or reorders an entry (new entries go to the head), dead space only grows, end_of_file never
+   shrinks ... *)
+Theorem C02_alloc_lists_only_grow : forall h s, ok_hist s h = true -> grows s (run s h).
+Proof. exact alloc_lists_only_grow. Qed.
+Print Assumptions C02_alloc_lists_only_grow.
+
+(* ... and every range a caller hands back is the beginning of a live allocation. *)
+Theorem C02_alloc_freed_ranges_were_live : forall s p n, ok_step s (OFree p n) = true ->
+  exists m, In (p, m) (live s) /\ 0 < n <= m.
+Proof. exact ok_free_is_live_prefix. Qed.
+Print Assumptions C02_alloc_freed_ranges_were_live.
+
+(* ---- what is NOT true of the code, by kernel-checked witness (each replayed on the library by checks/C02d.py) ---- *)
+
+(* "medium entries are at most MEDIUM_CHUNK_MAXIMUM = 4096 bytes and inside one block": a 4098-byte chunk that starts on
+   a block boundary is filed as medium; its end tag straddles into the next block. *)
+Theorem C02_alloc_medium_class_bound_refuted :
+  exact_hist init_st wit_medium = true /\
+  fl_chunks (medium (run init_st wit_medium)) = [(4096, 8190)] /\
+  csize (4096, 8190) = 4098 /\ MEDIUM_CHUNK_MAXIMUM < csize (4096, 8190) /\
+  blk 4096 <> blk (4096 + 4098 - 1).
+Proof. exact medium_class_bound_refuted. Qed.
+Print Assumptions C02_alloc_medium_class_bound_refuted.
+
+(* "live + free + dead = end_of_file - header" without the exactness of frees: a chunk handed back shorter than it was
+   allocated (what ADF_Write_All_Data + ADFI_file_free do to a node's single data chunk) loses its tail for good. *)
+Theorem C02_alloc_conservation_needs_exact_frees_refuted :
+  ok_hist init_st wit_short = true /\ exact_hist init_st wit_short = false /\
+  let s := run init_st wit_short in
+  lost s = [(3290, 119)] /\
+  total (live s) + total (free_regions s) + total (dead s) = eof s + 1 - HDR - 119.
+Proof. exact conservation_needs_lost_refuted. Qed.
+Print Assumptions C02_alloc_conservation_needs_exact_frees_refuted.
+
+(* "large entries are larger than a block" without the exactness of frees *)
+Theorem C02_alloc_large_class_bound_refuted :
+  ok_hist init_st wit_large = true /\
+  fl_chunks (large (run init_st wit_large)) = [(3000, 5016)] /\ csize (3000, 5016) = 2020.
+Proof. exact large_class_bound_refuted. Qed.
+Print Assumptions C02_alloc_large_class_bound_refuted.
+
+(* freed space is never reused, on a history where a fitting free chunk exists *)
+Theorem C02_alloc_freed_space_is_not_reused :
+  exact_hist init_st wit_noreuse = true /\
+  positions init_st wit_noreuse = [512; 758; 4096; 8192] /\
+  free_regions (run init_st wit_noreuse) = [(7096, 1096); (4096, 3000); (1130, 2966)].
+Proof. exact freed_space_is_not_reused. Qed.
+Print Assumptions C02_alloc_freed_space_is_not_reused.
+
+(* ---- the DISABLED free-list search (text of ADFI_file_malloc inside "#if 0", transcribed as [malloc_search]; tied to
+   that text through a variant build in which it is compiled, checks/C02d.py "disabled_search_variant"): were it compiled,
+   first fit + unlink + split would keep everything pairwise disjoint and conserve the bytes, for every history ... *)
+Theorem C02_alloc_disabled_search_no_overlap : forall h, ok_hist_search init_st h = true ->
+  let s := run_search init_st h in
+  pairwise (regions s) /\ Forall (in_file (eof s)) (regions s) /\
+  total (live s) + total (free_regions s) + total (dead s) + total (lost s) = eof s + 1 - HDR.
+Proof. exact search_no_overlap_conservation. Qed.
+Print Assumptions C02_alloc_disabled_search_no_overlap.
+
+(* ... and it would reuse freed space: on the history of C02_alloc_freed_space_is_not_reused the last allocation gets 4096 *)
+Theorem C02_alloc_disabled_search_reuses :
+  ok_hist_search init_st wit_noreuse = true /\
+  snd (malloc_search (run_search init_st [OMalloc 246; OMalloc 372; OMalloc 3000; OFree 4096 3000]) 3000) = 4096.
+Proof. exact search_reuses. Qed.
+Print Assumptions C02_alloc_disabled_search_reuses.
+
+(* ---- non-vacuity: the hypotheses are met by a history that takes all three arms of ADFI_file_malloc and fills all
+   four classes; the initial state has the invariant ---- *)
+Example C02_alloc_hypotheses_satisfiable :
+  exact_hist init_st wit_mixed = true /\ ok_hist init_st wit_mixed = true /\
+  positions init_st wit_mixed = [512; 758; 1130; 1376; 4096; 4396; 8192; 8392; 17392; 20480] /\
+  let s := run init_st wit_mixed in
+  eof s = 24575 /\
+  fl_chunks (small s) = [(4096, 4392); (758, 1126)] /\ fl_chunks (medium s) = [(18417, 20476); (1376, 4092)] /\
+  fl_chunks (large s) = [(8392, 17388)] /\ dead s = [(512, 246); (8096, 96)] /\
+  fl_last (small s) = Some 758 /\ fl_last (medium s) = Some 1376 /\ fl_last (large s) = Some 8392.
+Proof. exact wit_mixed_ok. Qed.
+Example C02_alloc_initial_state_has_invariant : Inv init_st.
+Proof. exact Inv_init. Qed.
